@@ -209,10 +209,10 @@ func describe(sb *bytes.Buffer, v Value, depth int) {
 // Stats summarises which clauses of the specification a tree exercises.
 type Stats struct {
 	Fields, Containers, BoolFields, BoolElems, Doubles, EmptyMaps, Maps, Sets, Lists int
-	ShortLists, LongLists                                                         int // list/set headers below / at or above 15 elements
-	DeltaFields, AbsFields                                                        int // compact field header forms (ascending wire order assumed)
-	Types                                                                         [numT]int
-	MaxDepth                                                                      int
+	ShortLists, LongLists                                                            int // list/set headers below / at or above 15 elements
+	DeltaFields, AbsFields                                                           int // compact field header forms (ascending wire order assumed)
+	Types                                                                            [numT]int
+	MaxDepth                                                                         int
 }
 
 func (s *Stats) Add(v Value, depth int) {
